@@ -281,7 +281,8 @@ def native_replay(pid, specdir, g, scratch, stack, tape, wd):
     defs = cflags(scratch, [g.get('stack', stack)] + g.get('defs', []) + ['-DVERIF_NATIVE', '-DVERIF_MODE_H',
                                                                             '-DVERIF_HARNESS=' + g['harness']])
     cmd = ['gcc', '-O0', '-g', '-w', '-fsanitize=address,undefined', '-fno-sanitize-recover=undefined'] + defs + \
-          [tu, os.path.join(VERIF, 'rt', 'verif_native_main.c'), '-o', exe, '-lpthread']
+          [tu, os.path.join(VERIF, 'rt', 'verif_native_main.c'), '-o', exe, '-lpthread',
+           '-Wl,--unresolved-symbols=ignore-all']  # functions of the TU that the harness never calls may reference absent code
     rc, out, err, _ = run(cmd, 300)
     if rc != 0:
         return False, 'native build failed: ' + err[-1500:], ' '.join(cmd)
@@ -388,7 +389,9 @@ def run_property(pid, tier, flags, only, scratch, t0, seed, evidence_path):
     ledger = [o for r in results for o in r['obligations']]
     known = [k for k in load_known() if k.get('property') == pid and k.get('status') == 'known']
     expected_file = os.path.join(specdir, 'expected.json')
-    keys = sorted(set(o['key'] for o in ledger if o['cls'] not in ('memory-safety', 'frame', 'unwinding')))
+    # (preconditions of replaced callees exist per call site of the code under test: not part of the expected set)
+    keys = sorted(set(o['key'] for o in ledger if o['cls'] not in ('memory-safety', 'frame', 'unwinding')
+                      and '.precondition.' not in o['key']))
     if '--bless' in flags:
         if errors:
             print('cannot bless: errors', [(r['name'], r['error']) for r in errors])
